@@ -411,8 +411,18 @@ def run_pool_check(report, prop, plan, kit=None, what="own_proc_pools.py"):
                 replay = {"engine": "vsched", "config": cfg.describe(), "choices": rep["choices"],
                           "preemptions": rep["cost"][0], "env_deviations": rep["cost"][1], "bound": b,
                           "racy": sorted(map(list, racy)), "detail": extra}
-                for _ in range(1):
-                    report.violation(sig, what + " [%d preemptions]" % rep["cost"][0], replay)
+                # a failing schedule must fail identically when replayed: run it twice and compare the traces
+                traces = []
+                for _ in range(2):
+                    sr = vsched.Scheduler(rep["choices"], None, None, racy, record_trace=True)
+                    rr = sr.run(kit.make_driver(cfg))
+                    traces.append((rr.trace, rr.outcome, [x[:2] for x in kit.judge(cfg, rr) if x[0] == prop]))
+                if traces[0] != traces[1] or not traces[0][2]:
+                    report.harness_error("violation of %s in %s does not replay deterministically (choices %r)" % (
+                        prop, cfg.name, rep["choices"]))
+                    continue
+                replay["trace"] = traces[0][0][-60:]
+                report.violation(sig, what + " [%d preemptions]" % rep["cost"][0], replay)
                 if cnt > 1:
                     report.add(extra_violating_executions=cnt - 1)
             if b == bounds[-1]:
